@@ -136,11 +136,11 @@ def pubOk : Pub → Bool
   | .room _ m => roomMsgOk m
   | _ => true
 
-theorem inCallAll_crash (w : World) (n : Int) : (inCallAll w n).crash = false := by
-  unfold inCallAll; split <;> (try split) <;> rfl
+theorem inCallAll_crash (w : World) (room : String) (n : Int) : (inCallAll w room n).crash = false := by
+  unfold inCallAll; simp only []; split <;> (try split) <;> rfl
 
-theorem inCallAll_dialout (w : World) (n : Int) : (inCallAll w n).world.dialout = w.dialout := by
-  unfold inCallAll; split <;> (try split) <;> rfl
+theorem inCallAll_dialout (w : World) (room : String) (n : Int) : (inCallAll w room n).world.dialout = w.dialout := by
+  unfold inCallAll; simp only []; split <;> (try split) <;> rfl
 
 theorem consumeRoom_ok (w : World) (room : String) (m : Request) (h : roomMsgOk m = true) :
     (consumeRoom w room m).crash = false := by
@@ -197,7 +197,7 @@ theorem sendTo_crash (w : World) (ts : List Sess) (ev : Ev) : (sendTo w ts ev).c
 theorem deliver_ok (w : World) (p : Pub) (h : pubOk p = true) : (deliver w p).crash = false := by
   cases p with
   | user uid ev =>
-    show (if uid = "" then ({ world := w } : CRes) else sendTo w (w.sessions.filter (·.user = uid)) ev).crash = false
+    simp only [deliver]
     split <;> rfl
   | session sid ev => cases ev <;> rfl
   | room room m => exact consumeRoom_ok w room m h
